@@ -219,7 +219,7 @@ Proof.
       assert (Hal : alive (dead s) p = true).
       { unfold alive. apply negb_true_iff. apply mem_pair_false. intros Hi. apply Hnt. rewrite <- Hc. exact (Hdead _ _ Hi). }
       destruct (Q4 p Hp Hal r1 Hr) as [Hx|(p' & Hp' & [Hc' _] & Hr')].
-      * inversion Hx as [[H0 H1 H2]]. exfalso. apply Hne. rewrite <- Hc, H0, H2. reflexivity.
+      * inversion Hx. exfalso. apply Hne. congruence.
       * exists p'. rewrite Hq. split; [exact Hp'|]. split; [congruence | exact Hr'].
     + rewrite Hd. exact Hdead.
     + apply perm_skip. exact Hh.
@@ -325,7 +325,7 @@ Proof.
   - (* Request *)
     set (s1 := {| queue := enqueue (queue s) c rooms k; locked := locked s; avail := avail s; dead := dead s |}) in *.
     assert (HJ1 : J0 max s1 (sp_msg o (Request c rooms k)) (gh_msg h (Request c rooms k))).
-    { destruct HJ as [Hi Hincl Hcred Hwait Hdead Hh]. constructor; cbn [sp_msg gh_msg holders credits waiting tainted s1 queue locked avail dead]; auto.
+    { destruct HJ as [Hi Hincl Hcred Hwait Hdead Hh]. unfold s1; constructor; cbn [sp_msg gh_msg holders credits waiting tainted queue locked avail dead]; auto.
       - intros x. rewrite cntP_app. pose proof (enqueue_cred (queue s) c rooms k x). specialize (Hcred x). lia.
       - intros c0 r0 Hin Hnt. apply in_app_or in Hin. destruct Hin as [Hin|Hin].
         + apply in_map_iff in Hin. destruct Hin as (r1 & He & Hr1). inversion He; subst. apply enqueue_has. exact Hr1.
@@ -338,8 +338,8 @@ Proof.
     destruct (memN r (locked s)) eqn:Er.
     + set (s1 := {| queue := queue s; locked := removeN r (locked s); avail := S (avail s); dead := dead s |}) in *.
       assert (HJ1 : J0 max s1 (sp_msg o (Unlock who r)) (gh_msg h (Unlock who r))).
-      { destruct HJ as [[Hnd Hlen] Hincl Hcred Hwait Hdead Hh]. constructor; cbn [sp_msg gh_msg holders credits waiting tainted s1 queue locked avail dead]; auto.
-        - split; [apply removeN_NoDup; exact Hnd|]. pose proof (removeN_length r (locked s) Hnd (proj1 (memN_In _ _) Er)). lia.
+      { destruct HJ as [[Hnd Hlen] Hincl Hcred Hwait Hdead Hh]. unfold s1; constructor; cbn [sp_msg gh_msg holders credits waiting tainted queue locked avail dead]; auto.
+        - split; [apply removeN_NoDup; exact Hnd|]. cbn [locked avail]. pose proof (removeN_length r (locked s) Hnd (proj1 (memN_In _ _) Er)). lia.
         - intros y Hy. apply removeN_In in Hy. destruct Hy as [Hy Hne]. apply remove_one_keeps_other; [apply Hincl; exact Hy | exact Hne].
         - apply remove_one_Permutation. exact Hh. }
       destruct (acquire_lock_J0 max s1 _ _ s' g HJ1 H ltac:(intros; cbn; lia)) as (o' & Ho' & HJ').
@@ -381,10 +381,10 @@ Lemma step_J8 : forall s h m s' g, NoDup (locked s) -> J8 s h -> bad_unlock s h 
   J8 s' (gh_grants (gh_msg h m) g).
 Proof.
   intros s h m s' g Hnd H8 Hbad H. destruct m as [c rooms k|who r|c k]; cbn [step gh_msg] in *.
-  - apply (acquire_n_J8 (avail s) _ h s' g); [exact H8 | exact H].
+  - eapply acquire_n_J8; [|exact H]. exact H8.
   - destruct (memN r (locked s)) eqn:Er.
-    + rewrite andb_true_r in Hbad. apply negb_false_iff in Hbad. apply mem_pair_In in Hbad.
-      apply (acquire_lock_J8 _ _ s' g); [|exact H]. unfold J8 in *. cbn [locked].
+    + unfold bad_unlock in Hbad. rewrite Er, andb_true_r in Hbad. apply negb_false_iff in Hbad. apply mem_pair_In in Hbad.
+      eapply acquire_lock_J8; [|exact H]. unfold J8 in *. cbn [locked].
       pose proof (remove_one_perm_cons _ _ Hbad) as Hp. apply (Permutation_map snd) in Hp. cbn [map snd] in Hp.
       assert (Hp2 : Permutation (r :: map snd (remove_one (who, r) h)) (locked s)).
       { eapply perm_trans; [apply Permutation_sym; exact Hp | exact H8]. }
@@ -442,10 +442,10 @@ Lemma sp_grants_char : forall g s s', sp_grants s g = Some s' ->
   tainted s' = tainted s.
 Proof.
   induction g as [|[[c k] r] g IH]; intros s s' H; cbn [sp_grants] in H.
-  - inversion H; subst. cbn [map app]. repeat split; auto; try tauto. intros [H1 _]. exact H1.
+  - inversion H; subst. cbn [map app]. repeat split; auto; try tauto.
   - unfold sp_grant in H. destruct (take_one (c, r) (credits s)) as [cr'|] eqn:E; [|discriminate].
     apply IH in H. cbn [holders credits waiting tainted] in H. destruct H as (H1 & H2 & H3 & H4).
-    pose proof (take_one_spec _ _ _ E) as Hc. cbn [map cr fst snd].
+    pose proof (take_one_spec _ _ _ E) as Hc. cbn [map]. change (cr (c, k, r)) with (c, r).
     repeat split.
     + eapply perm_trans; [exact H1|]. apply Permutation_sym. apply Permutation_middle.
     + intros x. rewrite cntP_cons, (Hc x), (H2 x). lia.
@@ -460,9 +460,9 @@ Lemma sp_grants_total : forall g s, (forall x, cntP (map cr g) x <= cntP (credit
 Proof.
   induction g as [|[[c k] r] g IH]; intros s H; [eexists; reflexivity|]. cbn [sp_grants sp_grant].
   assert (Hpos : cntP (credits s) (c, r) > 0).
-  { specialize (H (c, r)). cbn [map cr fst snd] in H. rewrite cntP_cons, pair_eqb_refl in H. cbn [ind] in H. lia. }
+  { specialize (H (c, r)). cbn [map] in H. change (cr (c, k, r)) with (c, r) in H. rewrite cntP_cons, pair_eqb_refl in H. cbn [ind] in H. lia. }
   destruct (take_one_some _ _ Hpos) as [cr' E]. rewrite E. apply IH. cbn [credits]. intros x.
-  specialize (H x). cbn [map cr fst snd] in H. rewrite cntP_cons in H. pose proof (take_one_spec _ _ _ E x). lia.
+  specialize (H x). cbn [map] in H. change (cr (c, k, r)) with (c, r) in H. rewrite cntP_cons in H. pose proof (take_one_spec _ _ _ E x). lia.
 Qed.
 Lemma cntP_perm : forall l l' x, Permutation l l' -> cntP l x = cntP l' x.
 Proof. intros l l' x H. unfold cntP. apply Permutation_count_occ. exact H. Qed.
@@ -549,7 +549,7 @@ Proof. induction gss; constructor; [apply sort_g_perm | assumption]. Qed.
 Lemma take_grants_enc : forall gs rest, take_grants (length gs) (flat_map enc_grant gs ++ rest) = Some (gs, rest).
 Proof.
   induction gs as [|[[c k] r] gs IH]; intros rest; [reflexivity|].
-  cbn [length flat_map enc_grant app take_grants]. rewrite <- app_assoc. cbn [app]. rewrite IH.
+  cbn [length flat_map enc_grant app take_grants]. rewrite IH.
   unfold zn. rewrite !N2Z.id. reflexivity.
 Qed.
 Lemma decode_encode : forall gss, decode (length gss) (encode gss) = Some gss.
@@ -606,6 +606,28 @@ Theorem counter_and_wakeup : forall max tr,
   let s := state_after (init max) tr in
   NoDup (locked s) /\ length (locked s) + avail s = max /\ wake s.
 Proof. intros max tr. exact (state_invariants tr max (init max) sp0 [] (J0_init max) (wake_init max)). Qed.
+
+(* progress: a room that is free and wanted on a live channel is granted by the next acquire_lock;
+   in particular a released room somebody waits for is re-granted at once *)
+Lemma acquire_progress : forall s s' g p r, acquire_lock s = (s', g) ->
+  In p (queue s) -> alive (dead s) p = true -> In r (p_rooms p) -> memN r (locked s) = false -> g <> [].
+Proof.
+  intros s s' g p r H Hp Hal Hr Hfree Hg. subst g. apply acquire_lock_spec in H.
+  destruct H as (q' & og & Hs & _ & _ & [(Ho & _)|(c & k & r' & _ & Hg & _)]); [|discriminate].
+  apply scan_q_spec in Hs. destruct Hs as (Q1 & _ & _ & Q4 & _). rewrite app_nil_r in Q4.
+  destruct (Q4 p Hp Hal r Hr) as [Hx|(p' & Hp' & Hsame & Hr')]; [rewrite Ho in Hx; discriminate|].
+  assert (Hb : blocked (locked s) (dead s) p') by (apply (Q1 Ho); [intros x []| exact Hp']).
+  unfold blocked in Hb. rewrite (alive_same _ _ _ Hsame) in Hb. rewrite (Hb Hal r Hr') in Hfree. discriminate.
+Qed.
+Theorem release_progress : forall s who r p,
+  memN r (locked s) = true -> In p (queue s) -> alive (dead s) p = true -> In r (p_rooms p) ->
+  snd (step s (Unlock who r)) <> [].
+Proof.
+  intros s who r p Hl Hp Hal Hr. cbn [step]. rewrite Hl.
+  destruct (acquire_lock {| queue := queue s; locked := removeN r (locked s); avail := S (avail s); dead := dead s |}) as [s' g] eqn:E.
+  cbn [snd]. apply (acquire_progress _ s' g p r E); cbn [queue dead locked]; auto.
+  apply memN_false. intros Hin. apply removeN_In in Hin. destruct Hin as [_ Hne]. apply Hne. reflexivity.
+Qed.
 
 (* ------------------------------------------------------------------ witnesses *)
 Definition k1_witness : c20case :=
